@@ -11,6 +11,7 @@ CONSTANTS
   AllowPublish = FALSE
   SplitTrack = FALSE
   AsCoded = {"removal-unlocked"}
+  Replay = TRUE
 VIEW View
 INVARIANTS TypeOK VersionConsistent C25_Epoch
 PROPERTIES C25_Frames
